@@ -373,3 +373,45 @@ def k_conditions(E):
     return dict(K6=main_ctx_wait and go_fallible,            # main ctx-aware wait + fallible goroutine call
                 K7=(not E["err"]) and go_wait,                 # no error result + a goroutine that waits
                 K8=main_fallible_with_chan and go_wait)        # main-thread fallible call + goroutine waits
+
+def defect_types(ret, provs):
+    """type keys a diagnostic should name, per refusal cause (C09)"""
+    out = {"dup": set(), "orphan": set(), "cycle": set()}
+    sup = {}
+    def add(t, who):
+        if t in sup and sup[t] != who:
+            out["dup"].add(t)
+        sup.setdefault(t, who)
+    for i, p in enumerate(provs):
+        if p['kind'] == 0:
+            for g in p['groups']:
+                for t in g:
+                    add(t, ('P', i))
+    for i, p in enumerate(provs):
+        if p['kind'] == 1:
+            if p['sty'] not in sup:
+                out["orphan"].add(p['sty'])
+            for fname, ft in p['fields']:
+                add(ft, ('F', i, fname))
+    s2 = suppliers(ret, provs)
+    # types whose supplier can reach itself
+    def key_of(t):
+        s = s2.get(t)
+        return None if s is None else (('P', s[1]) if s[0] == 'P' else s)
+    def reqs_of(k):
+        return provs[k[1]]['req'] if k[0] == 'P' else [provs[k[1]]['sty']]
+    keys = set(k for k in (key_of(t) for t in s2) if k)
+    reach = {k: set() for k in keys}
+    for k in keys:
+        todo = [k]
+        while todo:
+            u = todo.pop()
+            for t in reqs_of(u):
+                v = key_of(t)
+                if v is not None and v not in reach[k]:
+                    reach[k].add(v); todo.append(v)
+    for t in s2:
+        k = key_of(t)
+        if k in reach.get(k, ()):
+            out["cycle"].add(t)
+    return out
